@@ -686,6 +686,9 @@ theorem stmt_spec (C : Ctx) (st : Stmt) (u : UserSt) (g : HG)
     · rename_i p _
       exact wp_nop _ _ _ _ _ (Or.inr (Or.inr (Or.inr ⟨p, rfl⟩))) (wp_outMark _ _ _ Q E (by decide) (hQ _ _ hh hd))
     · exact wp_outMark _ _ _ Q E (by decide) (hQ _ _ hh hd)
+  | tryNew kind s =>
+    simp only [stmt]
+    exact wp_outMark _ _ _ Q E (by simp only [mkOutOk, mkOutWouldBlock]; (repeat' split) <;> omega) (hQ _ _ hh hd)
 
 /-- **Whole programs.** -/
 theorem program_spec (C : Ctx) (prog : List Stmt) (u : UserSt) (g : HG)
